@@ -184,6 +184,12 @@ where
         }
         let mut found = BTreeSet::new();
         while let Some((link, path_pos)) = links.pop() {
+            // Fold `.` and `..` so that every spelling of a file is one entry of
+            // `found`; files in sibling directories that import each other with
+            // `../` would otherwise grow the path for ever.
+            let link: Rc<str> = crate::path::normalize(PathBuf::from(link.as_ref()))
+                .to_string_lossy()
+                .into();
             if found.contains(&link) {
                 continue;
             }
